@@ -59,6 +59,13 @@ unsafe impl<L: Lockable> Lockable for OwnedLockCollection<L> {
 	#[mutants::skip] // It's hard to test lkocks in an OwnedLockCollection, because they're owned
 	#[cfg(not(tarpaulin_include))]
 	fn get_ptrs<'a>(&'a self, ptrs: &mut Vec<&'a dyn RawLock>) {
+		// An empty collection has nothing to lock, so it isn't listed at all. It
+		// must not be: a zero-sized collection can share its address with the
+		// lock next to it, and locks are told apart by their addresses.
+		if utils::get_locks_unsorted(&self.data).is_empty() {
+			return;
+		}
+
 		// It's ok to use self here, because the values in the collection already
 		// cannot be referenced anywhere else. It's necessary to use self as the lock
 		// because otherwise we will be handing out shared references to the child
